@@ -235,3 +235,10 @@ package hamt
 //@ prop C02 C15
 //@ at call hamt.hash#1 assert hashes-the-key-as-given: str(callee_val) == key.x
 //@ at call (*hamt._UnixFSHAMTShard).lookup#1 assert walks-with-this-key-from-the-first-hash-bit: callee_key == key.x && callee_hv.consumed == 0
+
+// C02: the reported length is the entry count of the whole sharded directory (0 only when the count
+// could not be completed: a missing sub-shard or a malformed link name).
+//@ func (*hamt._UnixFSHAMTShard).Length
+//@ prop C02 C15
+//@ ensures reports-the-entry-count: result == entriesOf(n) || result == 0
+//@ ensures a-known-count-is-reported-as-is: old(n.cachedLength) != -1 ==> result == old(n.cachedLength)
